@@ -647,12 +647,23 @@ func (Engine) Run(c *choice.Src, o engine.Opt) (out engine.Out) {
 	// sequential baseline: each call alone (scheduler off)
 	base := map[op]string{}
 	baseHasher := hash.NewSHA3_256()
-	for ti := range plans {
-		for _, p := range plans[ti] {
-			if _, ok := base[p]; !ok {
-				base[p] = ref.exec(p, baseHasher) // on the reference world: the shared objects stay untouched until the run
+	baseline := func() {
+		for ti := range plans {
+			for _, p := range plans[ti] {
+				if _, ok := base[p]; !ok {
+					base[p] = ref.exec(p, baseHasher) // on the reference world: the shared objects stay untouched until the run
+				}
 			}
 		}
+	}
+	// in half of the runs the baseline is taken AFTER the concurrent run: the concurrent calls are
+	// then the first use of these key and signature VALUES in the process (package-level state
+	// keyed by value, e.g. a cache of verified proofs, is still cold)
+	baselineAfter := c.Bool(1, 2, "baseline.after")
+	if baselineAfter {
+		out.Faults["workload.concurrent_calls_are_first_use_of_the_values"]++
+	} else {
+		baseline()
 	}
 	// the concurrent run
 	results := make([][]string, ntasks)
@@ -671,6 +682,9 @@ func (Engine) Run(c *choice.Src, o engine.Opt) (out engine.Out) {
 	sim := simrt.New(func(n int, label string) int { return c.Choose(n, label) }, fns...)
 	racelog.Mark()
 	panics := sim.Run()
+	if baselineAfter && sim.Deadlock == "" {
+		baseline()
+	}
 	if nrep, text := racelog.Since(); nrep > 0 {
 		// a report of the Go race detector during THIS run (the worker runs with halt_on_error=0
 		// and without duplicate suppression, see package racelog)
